@@ -413,20 +413,39 @@ func (x *Exec) merge(states []*State) *State {
 		}
 		return r
 	}
-	for k := range live[0].vars {
+	allVars := map[types.Object]bool{}
+	var varOrder []types.Object
+	for _, s := range live {
+		for k := range s.vars {
+			if !allVars[k] {
+				allVars[k] = true
+				varOrder = append(varOrder, k)
+			}
+		}
+	}
+	sort.Slice(varOrder, func(i, j int) bool {
+		if varOrder[i].Pos() != varOrder[j].Pos() {
+			return varOrder[i].Pos() < varOrder[j].Pos()
+		}
+		return varOrder[i].Name() < varOrder[j].Name()
+	})
+	for _, k := range varOrder {
 		vals := make([]Val, 0, len(live))
-		ok := true
+		var proto Val
+		for _, s := range live {
+			if v, has := s.vars[k]; has {
+				proto = v
+			}
+		}
 		for _, s := range live {
 			v, has := s.vars[k]
 			if !has {
-				ok = false
-				break
+				// not declared on this path: unconstrained there
+				v = Val{T: x.vc.fresh(k.Name()+"_undef", proto.Sort), Sort: proto.Sort, GoT: proto.GoT}
 			}
 			vals = append(vals, v)
 		}
-		if ok {
-			out.vars[k] = mergeVal(k.Name(), vals)
-		}
+		out.vars[k] = mergeVal(k.Name(), vals)
 	}
 	keys := map[string]bool{}
 	for _, s := range live {
@@ -1340,7 +1359,7 @@ func (x *Exec) execRange(st *State, s *ast.RangeStmt, label string) *flow {
 			b := h.clone()
 			k := x.vc.fresh("key", inf.Key)
 			x.assume(b, and(x.vc.mapDom(coll, k), not(fmt.Sprintf("(select %s %s)", seen, k))))
-			kv := Val{T: k, Sort: inf.Key, GoT: inf.KeyT}
+			kv := Val{T: k, Sort: inf.Key, GoT: u.Key()}
 			vv := x.vc.mapVal(coll, k)
 			assignKV(b, &kv, &vv)
 			f := x.execBlock(b, s.Body.List)
